@@ -356,6 +356,28 @@ static void c07Case(Rng &rng, CaseResult &r, const std::string &profile, bool pa
     m.hasCellSizeUpdate_ = false; m.hasNetUpdate_ = false;
     c0 = m;
   }
+  if (profile == "degenerate" && rng.chance(0.25)) {
+    // a row or two with ordinary cells plus a pile of movable cells without width (or without height) that all sit on the same
+    // point: ties in every sort key
+    int nr = (int)rng.range(1, 2), H = (int)rng.range(2, 10), nOrd = (int)rng.range(5, 30), nZero = (int)rng.range(14, 40), W = nOrd * 12 + 60;
+    int N = nOrd + nZero;
+    Circuit m(N);
+    std::vector<int> w(N), h(N, H), x(N), y(N);
+    int px = (int)rng.pick(std::vector<int>{0, W, W / 2, W - 20}), py = (int)rng.range(0, nr - 1) * H;
+    std::vector<int> order(N);
+    for (int i = 0; i < N; ++i) order[i] = i;
+    if (rng.chance(0.5)) for (int i = N - 1; i > 0; --i) std::swap(order[i], order[rng.range(0, i)]);
+    for (int k = 0; k < N; ++k) {
+      int i = order[k];
+      if (k < nOrd) { w[i] = (int)rng.range(1, 12); x[i] = (int)rng.range(0, W - 12); y[i] = (int)rng.range(0, nr - 1) * H; }
+      else { w[i] = 0; if (rng.chance(0.1)) { w[i] = 1; h[i] = 0; } x[i] = px; y[i] = py; }
+    }
+    m.setCellWidth(w); m.setCellHeight(h); m.setCellX(x); m.setCellY(y);
+    m.setupRows(Rectangle(0, W, 0, nr * H), H, rng.chance(0.5), rng.chance(0.5));
+    for (int k = 0; k < 6; ++k) m.addNet({(int)rng.range(0, N - 1), (int)rng.range(0, N - 1)}, {0, 0}, {0, 0});
+    m.hasCellSizeUpdate_ = false; m.hasNetUpdate_ = false;
+    c0 = m;
+  }
   if (profile == "degenerate" && rng.chance(0.2) && c0.nbNets() > 0) {
     // all pins on one cell
     int cell = (int)rng.range(0, c0.nbCells() - 1);
@@ -480,6 +502,12 @@ static std::string settersRefused(Circuit &c) {
   };
   std::vector<std::string> errs;
   errs.push_back(expectThrow("addNet", [&]() { c.addNet({0}, {0}, {0}); }));
+  // degenerate arguments are structural modifications like any other (even when they would end up changing nothing)
+  errs.push_back(expectThrow("addNet (no pin)", [&]() { c.addNet({}, {}, {}); }));
+  errs.push_back(expectThrow("setNets (empty netlist)", [&]() { c.setNets({0}, {}, {}, {}); }));
+  errs.push_back(expectThrow("setRows (no row)", [&]() { c.setRows({}); }));
+  errs.push_back(expectThrow("setRows (same rows)", [&]() { c.setRows(std::vector<Row>(c.rows_)); }));
+  errs.push_back(expectThrow("setCellIsFixed (same values)", [&]() { c.setCellIsFixed(std::vector<bool>(c.cellIsFixed_)); }));
   errs.push_back(expectThrow("setNets", [&]() { c.setNets({0, 1}, {0}, {0}, {0}); }));
   errs.push_back(expectThrow("setRows", [&]() { c.setRows(c.rows_); }));
   errs.push_back(expectThrow("setupRows", [&]() { c.setupRows(Rectangle(0, 10, 0, 10), 2); }));
@@ -701,6 +729,49 @@ static void c10Case(Rng &rng, CaseResult &r) {
   r.sig = std::string(stageName[stage]) + ":K" + std::to_string(std::min(K, 40)) + (baseOk ? ":ok" : ":thr") + (rejectParams ? "R" : "") + (infeasibleShape.empty() ? "" : "S");
 }
 
+// The Legalizer object used in stages: some tall cells through runTetris, some row-high cells through runAbacus (each call
+// skips cells that are already placed or of the wrong kind), in any order and possibly several times, then run() for the rest.
+// Whenever run() returns, the exported placement must be legal; cells placed by an earlier stage are obstacles for the later ones.
+static void c01Staged(Rng &rng, CaseResult &r) {
+  std::string profile = rng.pick(std::vector<std::string>{"multirow", "general", "turned", "dense", "obstruction"});
+  GenOpts o = makeProfile(rng, profile);
+  o.polarityProb = std::min(o.polarityProb, 0.2);
+  if (rng.chance(0.5)) o.multiRowProb = 0.5;
+  Circuit c0 = genCircuit(rng, o);
+  std::string pdesc;
+  ColoquinteParameters params = genParams(rng, false, &pdesc);
+  int stages = (int)rng.range(1, 4);
+  if (r.dumpOnly) { r.sample = sampleJson(c0, "c01.staged", pdesc, "stages=" + std::to_string(stages)); return; }
+  std::ostringstream hist;
+  try {
+    Legalizer leg = Legalizer::fromIspdCircuit(c0);
+    int n = leg.nbCells();
+    for (int s2 = 0; s2 < stages; ++s2) {
+      std::vector<int> some;
+      for (int i = 0; i < n; ++i) if (rng.chance(0.4)) some.push_back(i);
+      if (rng.chance(0.5)) for (int i = (int)some.size() - 1; i > 0; --i) std::swap(some[i], some[rng.range(0, i)]);
+      if (rng.chance(0.5)) { leg.runTetris(some); hist << "runTetris(" << some.size() << ") "; }
+      else { leg.runAbacus(some); hist << "runAbacus(" << some.size() << ") "; }
+    }
+    leg.run(params);
+    hist << "run";
+    Circuit c = c0;
+    leg.exportPlacement(c);
+    r.count("staged_runs_returned");
+    std::string e = checkLegal(c);
+    if (!e.empty()) r.fail("C01:illegal-after-staged-legalization", "after " + hist.str() + ": " + e);
+    std::string fd = frameDiff(c0, c, false);
+    if (!fd.empty()) r.fail("C03:frame-changed-by-legalize", fd);
+    r.nontrivial = true;
+  } catch (const std::exception &e) {
+    r.count("staged_runs_threw");
+    r.nontrivial = false;
+  }
+  Features f = features(c0);
+  r.sig = "staged:" + f.str() + ":" + std::to_string(stages);
+  if (r.needSample()) r.sample = sampleJson(c0, "c01.staged", pdesc, hist.str());
+}
+
 // The position setters stay available while a call is in progress. When a callback uses them to move or turn a FIXED cell,
 // the stage must leave that cell where the callback put it: fixed cells are never written by a placement stage.
 static void c03Nudge(Rng &rng, CaseResult &r) {
@@ -837,6 +908,7 @@ int main(int argc, char **argv) {
     add("c05." + prof, [prof](uint64_t, Rng &rng, CaseResult &r) { flowCase(rng, r, prof, O_C05); });
   for (std::string prof : {"general", "manyfixed", "dense", "obstruction", "crowded", "faraway", "big"})
     add("c03.flow." + prof, [prof](uint64_t, Rng &rng, CaseResult &r) { flowCase(rng, r, prof, O_C03); });
+  add("c01.staged", [](uint64_t, Rng &rng, CaseResult &r) { c01Staged(rng, r); });
   add("c03.global", [](uint64_t, Rng &rng, CaseResult &r) { c03Global(rng, r); });
   add("c03.nudge", [](uint64_t, Rng &rng, CaseResult &r) { c03Nudge(rng, r); }, 60);
   for (std::string prof : {"general", "rowhigh", "obstruction", "polarity", "dense", "crowded", "big20", "comb", "staggered"})
